@@ -530,7 +530,7 @@ def source_fingerprint():
 
 TIERS = {
     # prop: tier: (plans, batch, replicas k, recycle-after-batches, wall budget seconds)
-    "C16": {"quick": (16000, 100, 2, 10, 240), "thorough": (300000, 200, 2, 12, 1500)},
+    "C16": {"quick": (16000, 100, 2, 10, 240), "thorough": (1200000, 200, 2, 12, 1800)},
     "C15": {"quick": (6400, 10, 3, 10, 400), "thorough": (90000, 20, 4, 8, 2900)},
     "C13": {"quick": (12000, 50, 2, 10, 300), "thorough": (100000, 100, 2, 12, 2700)},
 }
@@ -638,6 +638,7 @@ class Run:
         sig_counts = {}
         cover = set()
         iso_seen = {}
+        det_sample = None
         i5_candidates = []
         cross_seed_divergences = 0
         errors = []
@@ -677,6 +678,9 @@ class Run:
                         v["_where"] = here
                         candidates[v["sig"]] = Candidate(v["sig"], v["inv"], res["index"], [hs], v)
             slot = pending.setdefault(b, {})
+            if b == 0 and r == 0:
+                # first batch of a fresh interpreter: (order of execution, digests)
+                det_sample = (hs, [x["index"] for x in results], {x["index"]: x["full_digest"] for x in results})
             slot[r] = (hs, sorted(results, key=lambda x: x["index"]))
             if len(slot) == self.k:
                 reps = [slot[i] for i in range(self.k)]
@@ -718,7 +722,7 @@ class Run:
             "budget_exhausted": wall > self.budget,
             "cover": cover, "cross_seed_divergences": cross_seed_divergences,
             "i5_candidates": i5_candidates, "histories": self.histories,
-            "iso_pairs_compared": len(iso_seen),
+            "iso_pairs_compared": len(iso_seen), "det_sample": det_sample,
         }
 
 
@@ -795,6 +799,23 @@ def check(prop, tier, seed):
         for e in out["errors"][:5]:
             print(f"HARNESS-ERROR: {e}", flush=True)
         return EXIT_HARNESS
+    # determinism sample (DESIGN 2.4): the first batch of the first interpreter again - same hash
+    # seed, fresh interpreter, same order (so the same in-process history); the complete event
+    # logs must be byte-identical
+    out["determinism_selfcheck"] = {"plans": 0, "mismatches": 0}
+    if out.get("det_sample"):
+        hs, order, digs = out["det_sample"]
+        w = WorkerProc(hs)
+        try:
+            again = w.request({"t": "gen", "prop": prop, "seed": seed, "indices": order})["results"]
+        finally:
+            w.close()
+        bad = [r["index"] for r in again if r["full_digest"] != digs[r["index"]]]
+        out["determinism_selfcheck"] = {"plans": len(again), "mismatches": len(bad), "hash_seed": hs}
+        if bad:
+            print(f"HARNESS-ERROR: nondeterministic event log (same plan, same hash seed {hs}, "
+                  f"fresh interpreter) for plan indices {bad[:10]}")
+            return EXIT_HARNESS
     if out["distinct_hash_orders"] < 2 and out["executions"]:
         print("HARNESS-ERROR: hash seeds in use do not produce different set orders")
         return EXIT_HARNESS
